@@ -187,11 +187,12 @@ def gen_cases(chk, pools, n_target):
     out = []
     # K1: wrap sweep — every depth 0..14, attribute value lengths so that the column before the next
     # attribute runs through the wrap column
-    depths = list(range(0, 15))
+    # ... plus depths at which the indentation and the tag name alone reach and pass the wrap column (the FIRST attribute then wraps)
+    depths = list(range(0, 15)) + [22, 26, 30, 32, 33, 34, 36, 40, 46]
     for depth in depths:
         for rep in range(1 if quick else 6):
             seed = rng.getrandbits(48)
-            for L in (range(0, 96, 1) if not quick else range(rng.randrange(3), 96, 3)):
+            for L in ((range(0, 96, 1) if not quick else range(rng.randrange(3), 96, 3)) if depth < 15 else (0, 1, 7, 30, 79, 95)):
                 def build(neutral, seed=seed, depth=depth, L=L):
                     import random
                     g2 = Gen(random.Random(seed), pools)
@@ -993,7 +994,7 @@ def run(chk: lib.Check):
     chk.coverage["rule"] = (
         "corpus: every fragment under tests/data loaded with MelodyModel and saved untouched, bytes compared with the original; "
         "model vs implementation bytes on whole small fragments (ModelFile.write_xml), on subtrees of large fragments "
-        "(_serialize_element) and on every spine element (_unmapped_attrs); generated trees: wrap sweep (depth 0..14 x value length "
+        "(_serialize_element) and on every spine element (_unmapped_attrs); generated trees: wrap sweep (depth 0..14 and 22..46 x value length "
         "0..95), root attribute shuffles / namespace subsets, every character of %r at start/middle/end/only in attribute, body and "
         "language text, random mixtures with comments around the root; oracles: parse(write(t)) succeeds, write(parse(write(t))) == "
         "write(t), parsed tree == t (raw lxml compare), independent start-tag scanner for the wrap rule. Fragmented layouts "
